@@ -387,7 +387,9 @@ impl ActiveFeature {
                 // seen a script keyword, add the default lookups
                 if self.default_systems.contains(&system)
                     || (self.default_systems.contains(&script_dflt)
-                        && self.script_default_lookups.contains_key(&system.script))
+                        && self
+                            .current_lang_sys
+                            .is_some_and(|cur| cur.script == system.script))
                 {
                     lookups.extend(
                         self.lookups
